@@ -69,6 +69,14 @@ func (j *judge) fail(class, format string, a ...any) {
 	j.fails = append(j.fails, finding{class, fmt.Sprintf(format, a...)})
 }
 func (j *judge) grey(what string) { j.greys = append(j.greys, what) }
+func (j *judge) has(class string) bool {
+	for _, f := range j.fails {
+		if f.class == class {
+			return true
+		}
+	}
+	return false
+}
 
 func hashFor(alg string) hash.Hash {
 	switch alg {
@@ -394,6 +402,16 @@ func (j *judge) rpVerify(id, access, alg string, m map[string]any, filled map[st
 			j.grey("rp_rejects_because_of_storage_custom_claim")
 			return
 		}
+		if errClass(err) == "expired" {
+			if exp, ok := num(m, "exp"); ok && time.Now().Unix()+2 >= exp && exp >= j.t.T0.Unix()+x.IDTTL-2 {
+				// the token was issued with a full lifetime and the process stalled longer than that before verifying it
+				e.run.Inconclusive("stall_longer_than_id_token_lifetime")
+				return
+			}
+		}
+		if errClass(err) == "subject-missing" && j.has("id_token:sub-missing") {
+			return // the same fact, already reported by the independent comparison
+		}
 		j.fail("id_token:rp-verify:"+errClass(err), "rp.VerifyTokens (issuer %q, client %q, remote key set on the provider's /keys, alg %s) rejects the issued id_token: %v", x.Issuer, x.Client, alg, err)
 		return
 	}
@@ -690,6 +708,7 @@ func (e *env) judgeResponse(x expect, t *tokenResp, c *vclient.Client) bool {
 		return true
 	}
 	run.Count("outcome", "violated")
+	run.SampleKind("violated:"+x.Step+":"+j.fails[0].class, map[string]any{"dims": e.d, "expect": x, "response": t.Raw, "decoded": j.dec, "trace": e.trace})
 	seen := map[string]bool{}
 	for _, f := range j.fails {
 		key := "C06:" + x.Step + ":" + f.class
@@ -732,4 +751,3 @@ func scopeClassOf(scopes []string) string {
 	return strings.Join(parts, "+")
 }
 
-var _ = time.Now
